@@ -37,6 +37,8 @@ type env struct {
 	nonce   uint32
 	name    string
 	broken  bool
+	// attribute prices set by the check itself in the current round
+	conflictsFee, nvbFee int64
 }
 
 func multi(m, n, salt int) neotest.Signer {
@@ -387,10 +389,30 @@ func (e *env) boundary(round int) {
 	for ci, cb := range combos {
 		for _, n := range []int{1, 100, 1000, 30000} {
 			var attrs []transaction.Attribute
-			if (ci+n)%3 == 0 {
-				attrs = []transaction.Attribute{{Type: transaction.ConflictsT, Value: &transaction.Conflicts{Hash: util.Uint256{3, byte(ci)}}}}
+			nConflicts := (ci + n + round) % 4
+			for k := 0; k < nConflicts; k++ {
+				attrs = append(attrs, transaction.Attribute{Type: transaction.ConflictsT, Value: &transaction.Conflicts{Hash: util.Uint256{3, byte(ci), byte(k)}}})
+			}
+			wantAttrFee := int64(nConflicts) * e.conflictsFee * int64(len(cb))
+			if nConflicts == 3 {
+				attrs = append(attrs, transaction.Attribute{Type: transaction.NotValidBeforeT, Value: &transaction.NotValidBefore{Height: e.p.BC.BlockHeight()}})
+				wantAttrFee += e.nvbFee
 			}
 			exact := e.build(cb, script(n), attrs, nil)
+			if len(attrs) > 0 {
+				// The attribute part of the calculated fee, isolated by the difference
+				// to the same transaction without attributes (same signers, so the
+				// same verification cost), against the prices this check has set:
+				// each Conflicts attribute costs its price once per signer, other
+				// attributes their price once.
+				plain := e.build(cb, script(n), nil, nil)
+				got := exact.NetworkFee - plain.NetworkFee - e.p.BC.FeePerByte()*int64(exact.Size()-plain.Size())
+				e.run.Obs("attribute_fee_parts_compared", 1)
+				if got != wantAttrFee {
+					e.viol("calculated-fee-attribute-part-differs-from-policy-prices", fmt.Sprintf("%s/round%d/boundary/combo%d/script%d", e.name, round, ci, n),
+						fmt.Sprintf("%d Conflicts attributes (price %d) x %d signers, NotValidBefore %v (price %d): attribute part of the calculated fee is %d, prices give %d", nConflicts, e.conflictsFee, len(cb), nConflicts == 3, e.nvbFee, got, wantAttrFee), exact)
+				}
+			}
 			less := e.resign(exact, cb)
 			less.NetworkFee--
 			less = e.resign(less, cb)
@@ -597,8 +619,12 @@ func TestCheck(t *testing.T) {
 			// policy of this round
 			fpb := ec.fpb + int64(round*37)
 			eff := ec.eff + int64(round%3)
+			e.conflictsFee = []int64{0, 5_0000, 123_4567}[(round+ei)%3]
+			e.nvbFee = []int64{777, 0}[(round/3+ei)%2]
 			if p.AddBlock(p.Call("set-fee-per-byte", []neotest.Signer{p.Val, p.CommitteeSigner()}, p.PolH, "setFeePerByte", fpb),
-				p.Call("set-exec-fee-factor", []neotest.Signer{p.Val, p.CommitteeSigner()}, p.PolH, "setExecFeeFactor", eff)) == nil {
+				p.Call("set-exec-fee-factor", []neotest.Signer{p.Val, p.CommitteeSigner()}, p.PolH, "setExecFeeFactor", eff),
+				p.Call("set-attribute-fee", []neotest.Signer{p.Val, p.CommitteeSigner()}, p.PolH, "setAttributeFee", int64(transaction.ConflictsT), e.conflictsFee),
+				p.Call("set-attribute-fee", []neotest.Signer{p.Val, p.CommitteeSigner()}, p.PolH, "setAttributeFee", int64(transaction.NotValidBeforeT), e.nvbFee)) == nil {
 				run.Violation("producer-rejected-own-block", ec.name, p.Rejected.Error(), nil)
 				break
 			}
